@@ -38,7 +38,11 @@ async def fifo_session(rng: Rng, n_ops: int) -> MemSession:
         if r < 0.35:
             nid += 1
             topic = "tb" if rng.random() < foreign_p else rng.choice(own or ["ta", "tb"])
-            await s.enqueue("q0", f"m{nid:03d}", topic, f"p{nid}", {"ts": CLOCK.us})
+            pd = {"ts": CLOCK.us}
+            if rng.random() < 0.25:
+                pd["next"] = CLOCK.us - rng.choice([1, 1000, S])     # a retried message whose back-off has elapsed
+                pd["max"], pd["tried"] = 3, 1
+            await s.enqueue("q0", f"m{nid:03d}", topic, f"p{nid}", pd)
         elif r < 0.75:
             await s.consume(0, rng.choice([1, 2, 5, 40]))
         elif held:
@@ -51,7 +55,8 @@ async def fifo_session(rng: Rng, n_ops: int) -> MemSession:
 
 def check_session(s: MemSession, model: Model, res: Result, label: str) -> None:
     own = s.cinfo[0]["topics"]
-    enq_order = [op["id"] for op, _, _ in s.log if op["op"] == "enqueue" and (not own or op["topic"] in own)]
+    enq_order = [op["id"] for op, _, _ in s.log if op["op"] == "enqueue" and (not own or op["topic"] in own)
+                 and "next" not in op["params"]]
     ever_returned = set(s.returned)
     deliv = [d["id"] for d in s.deliveries]
     e1 = [i for i in enq_order if i not in ever_returned]
@@ -65,11 +70,11 @@ def check_session(s: MemSession, model: Model, res: Result, label: str) -> None:
         res.note(("deliver", min(len(enq_order), 40) // 5, d["id"] in ever_returned, n % 7))
     if len(res.samples) < 3:
         res.samples.append({"label": label, "topics": own, "enqueue_order": enq_order[:12], "delivery_order": deliv[:12]})
-    if first_bad is None and answers[0] != "true":
+    if answers[0] != "true":
         res.bad("impl", "Pred.C15.inOrder (enqueue order vs delivery order, never-returned matching messages)",
                 case={"label": label, "ops": ops, "enqueued": e1, "delivered": d1}, observed=answers[0], expected="true")
     # a returned message is delivered again no later than messages enqueued after its return
-    if first_bad is None:
+    if True:
         pos = {}
         for n, d in enumerate(s.deliveries):
             pos.setdefault(d["id"], []).append((n, d["log"]))
